@@ -281,7 +281,7 @@ class Verifier:
                        exc.cls, exc.line), exc.line, c.properties)
 
     # ------------------------------------------------- unfolding axioms
-    def axioms_for(self, formulas, depth=2, exclude=()):
+    def axioms_for(self, formulas, depth=2, exclude=(), plug_all=True):
         """instantiate the defining equations of recursive spec functions at
         the applications occurring in the formulas (and, up to `depth`, at
         the applications these instances introduce), and the proven lemmas
@@ -342,7 +342,9 @@ class Verifier:
         axioms.extend(self.prefix_locality(all_apps))
         for p in eng.models.plugins:
             if hasattr(p, 'axioms'):
-                axioms.extend(p.axioms(list(formulas) + axioms))
+                # plug_all: also over the terms the unfoldings introduced
+                axioms.extend(p.axioms(list(formulas) + (
+                    axioms if plug_all else [])))
         return axioms
 
     def prefix_locality(self, all_apps):
